@@ -60,6 +60,7 @@ def run(rep, tier):
     doneflag(rep, dbg)
     dispatch_paths(rep, vm)
     shared(rep, dbg)
+    joinsend(rep, dbg)
     setops(rep, dbg)
     cli = f.crate("pest_debugger", kind="Executable")
     if cli is not None and cli is not dbg:
@@ -576,3 +577,48 @@ def freshchannel(rep, cli):
                             "run() terminates" % hirq.expr_text(rn["args"][-1])[:40])
     if n == 0:
         r.lost("the CLI function that calls DebuggerContext::run")
+
+
+def joinsend(rep, dbg):
+    """run() stops the previous session by setting the flag, unparking and JOINING the parser thread.  While it waits in
+    join() nobody receives.  A blocking send on the bounded event channel (SyncSender) that the parser thread performs
+    after that point waits for a receiver that is waiting for the thread: run() never returns."""
+    r = rep.rule("C17.JOINSEND", 2,
+                 "every event the parser thread sends can be sent while the controller sits in join(): the channel type is "
+                 "unbounded, or the send is non-blocking (try_send) / gives up once the stop flag is set - otherwise an "
+                 "event left undelivered in the bounded channel makes the thread's next send block forever and "
+                 "DebuggerContext::run deadlocks instead of terminating the previous session")
+    sp = spawner(dbg)
+    runf = dbg.fn(DC + "::run")
+    if sp is None or runf is None:
+        r.lost("the parser-thread spawner / DebuggerContext::run")
+        return
+    joins = any(kind(x) in ("Call", "MethodCall") and callee(x) == JOIN for x in walk(runf["body"]))
+    if not joins:
+        r.note("run() does not join the previous thread")
+        r.floor = 0
+        return
+    n = 0
+    for x in walk(sp["body"]):
+        if kind(x) == "MethodCall" and x["m"] == "send" and "SyncSender" in str(x.get("path", "")):
+            n += 1
+            ctx = hirq.Ctx(sp)
+            inner = any(kind(p_) == "Closure" for (p_, k_, i_) in ctx.ancestors(x))
+            # which send: the listener's breakpoint event, or the final outcome (arm of the match on vm.parse)
+            role = "breakpoint"
+            for g in ctx.guards(x):
+                if g[0] == "arm":
+                    vs = [str(v).split("::")[-1] for v in hirq.pat_variants(g[1]["arms"][g[2]]["pat"])]
+                    if "Ok" in vs:
+                        role = "final-eof"
+                    elif "Err" in vs:
+                        role = "final-error"
+            key = "send:" + role
+            r.instance(key, where(x))
+            r.violation(key, where(x),
+                        "the parser thread sends its %s event with a blocking `send` on the bounded channel: with an earlier "
+                        "event still undelivered (the controller called cont() / run() without receiving it) this send waits "
+                        "for the controller, which waits in join() for this thread" % role.replace("-", " "))
+    if n == 0:
+        r.note("no blocking send on a bounded channel in the parser thread")
+        r.floor = 0
